@@ -972,6 +972,13 @@ func (u *Unit) recCall(st *State, fn *ssa.Function, args []Value) Value {
 		specFail("recursive spec function %s: result must be a scalar", fn.Name())
 	}
 	t := UF(fmt.Sprintf("%s/%d", fn.Name(), len(ts)), rs, ts...)
+	if ct := u.eng.contracts[fnKey(fn)]; ct != nil && ct.Monotone && rs.K == KInt {
+		if u.usedCallee[fnKey(fn)] == nil {
+			u.usedCallee[fnKey(fn)] = map[string]bool{}
+		}
+		u.usedCallee[fnKey(fn)]["monotone"] = true
+		u.monotoneFacts(st, fn, args, ts, t)
+	}
 	mk := func(t *Term) Value {
 		switch {
 		case rs.K == KBool:
@@ -1024,4 +1031,42 @@ func (u *Unit) recCall(st *State, fn *ssa.Function, args []Value) Value {
 		}
 	}
 	return mk(t)
+}
+
+// monotoneFacts: for a ghost prefix sum declared `rec monotone` (every step adds a non-negative amount — proved
+// once as the obligation <fn>#monotone-step), any two applications that differ only in the bound argument are
+// ordered like their bounds, and every application is non-negative. The induction itself is the meta-level
+// step; its premise is machine-checked.
+func (u *Unit) monotoneFacts(st *State, fn *ssa.Function, args []Value, ts []*Term, app *Term) {
+	// the bound is the last Int-sorted scalar argument
+	bi := -1
+	for i := len(args) - 1; i >= 0; i-- {
+		if iv, ok := args[i].(IntV); ok && iv.T.IsInt() {
+			bi = i
+			break
+		}
+	}
+	if bi < 0 {
+		return
+	}
+	bound := args[bi].(IntV).T
+	key := fn.Name()
+	for _, t := range ts {
+		if t != bound {
+			key += fmt.Sprintf(",%d", t.id)
+		}
+	}
+	for _, ra := range st.recApps {
+		if ra.app == app {
+			return
+		}
+	}
+	st.assume(IntLe(IntK(0), app))
+	for _, ra := range st.recApps {
+		if ra.fn == fn.Name() && ra.other == key {
+			st.assume(Implies(IntLe(ra.bound, bound), IntLe(ra.app, app)))
+			st.assume(Implies(IntLe(bound, ra.bound), IntLe(app, ra.app)))
+		}
+	}
+	st.recApps = append(st.recApps, recApp{fn.Name(), key, bound, app})
 }
